@@ -101,6 +101,10 @@ def show(t, depth=0):
         return '%s[%s]' % (show(t[1], d), show(t[2], d))
     if k == 'fn':
         return 'fn<%s>' % t[1]
+    if k == 'agg':
+        return '[%s]' % ', '.join(show(a, d) for a in t[2])
+    if k == 'repeat':
+        return '[%s; _]' % show(t[1], d)
     return str(t)
 
 
